@@ -383,6 +383,24 @@ def bounded_types(seed):
             got = [type(c).__name__ for c in obj]
             if any(t != best for t in got):
                 fail("promote:%s(%s) gave %s, expected %s" % (ctor_name, names, got, best), dict(types=names, ctor=ctor_name))
+        # the other constructor forms of Vector: one sequence argument; two Points, the second of which got its coordinates assigned one by one
+        # (item and attribute assignment keep whatever is assigned, so the Point holds a type mixture)
+        Pm = Point(1, 2, 3)
+        Pm[0] = _val(T1, 1)
+        Pm.y = _val(T2, 2)
+        Pm[2] = _val(T3, 3)
+        for form, mk in (("Vector(sequence)", lambda: Vector([_val(T1, 1), _val(T2, 2), _val(T3, 3)])), ("Vector(Point, Point with assigned coordinates)", lambda: Vector(Point(0, 0, 0), Pm)),
+                         ("Point(Vector of a mixture)", lambda: Point(Pm.pv()))):
+            ev += 1
+            classes.add("promote-forms:%s" % form)
+            try:
+                obj = mk()
+            except Exception as e:
+                fail("promote-forms:%s(%s) raised %r" % (form, names, e), dict(types=names, ctor=form))
+                continue
+            got = [type(c).__name__ for c in obj]
+            if any(t != best for t in got):
+                fail("promote-forms:%s with %s gave %s, expected %s" % (form, names, got, best), dict(types=names, ctor=form))
     return dict(evaluations=ev, classes=sorted(classes), failures=failures, samples=samples)
 
 
